@@ -2593,6 +2593,53 @@ T('C08', 'twin-hashed-area-count-from-bytes', FL, '        hl = self.bytes_to_in
   "        hl = int.from_bytes(packet[:2], 'big')\n        hashed_raw = packet[:2 + hl]\n        del packet[:2]\n")
 T('C08', 'twin-dispatch-factory-staticmethod', TY, '    def __call__(cls, packet=None):  # NOQA\n        def _makeobj(cls):\n            obj = object.__new__(cls)\n            obj.__init__()\n            return obj\n\n',
   '    @staticmethod\n    def _makeobj(cls):\n        obj = object.__new__(cls)\n        obj.__init__()\n        return obj\n\n    def __call__(cls, packet=None):  # NOQA\n', more=[(TY, '            obj = _makeobj(ncls)\n', '            obj = MetaDispatchable._makeobj(ncls)\n'), (TY, '            obj = _makeobj(cls)\n', '            obj = MetaDispatchable._makeobj(cls)\n')])
+# repeated items: loop <-> EACH, loop bound, early exit, wrong length field, field read twice (second-wave miss C08-w2mut3 and its relatives)
+M('C08', 'ua-loop-to-if', PK, '        while self.header.length > (plen - len(packet)):\n            self.subpackets.parse(packet)',
+  '        if self.header.length > (plen - len(packet)):\n            self.subpackets.parse(packet)', 'C08.c')
+M('C08', 'hashed-loop-to-if', FL, '        while plen - len(packet) < hl:\n',
+  '        if plen - len(packet) < hl:\n', 'C08.c')
+M('C08', 'unhashed-loop-once', FL, '        while plen - len(packet) < uhl:\n            sp = SignatureSP(packet)\n            self[sp.__class__.__name__] = sp',
+  '        if uhl:\n            sp = SignatureSP(packet)\n            self[sp.__class__.__name__] = sp', 'C08.c')
+M('C08', 'compressed-loop-to-if', PK, '        while len(cdata) > 0:\n            self.packets.append(Packet(cdata))',
+  '        if len(cdata) > 0:\n            self.packets.append(Packet(cdata))', 'C08.c')
+M('C08', 'hashed-bound-plus-header', FL, '        while plen - len(packet) < hl:\n',
+  '        while plen - len(packet) < hl + 2:\n', 'C08.d')
+M('C08', 'hashed-bound-le', FL, '        while plen - len(packet) < hl:\n',
+  '        while plen - len(packet) <= hl:\n', 'C08.d')
+M('C08', 'ua-bound-ge', PK, '        while self.header.length > (plen - len(packet)):\n',
+  '        while self.header.length >= (plen - len(packet)):\n', 'C08.d')
+M('C08', 'ua-bound-minus-header', PK, '        while self.header.length > (plen - len(packet)):\n',
+  '        while self.header.length - len(self.header) > (plen - len(packet)):\n', 'C08.d')
+M('C08', 'unhashed-until-empty', FL, '        while plen - len(packet) < uhl:\n',
+  '        while len(packet) > 0:\n', 'C08.d')
+M('C08', 'unhashed-bound-stale-length', FL, '        while plen - len(packet) < uhl:\n',
+  '        while plen - len(packet) < hl:\n', 'C08.d')
+M('C08', 'hashed-stop-at-opaque', FL, "            sp = SignatureSP(packet)\n            self['h_' + sp.__class__.__name__] = sp\n",
+  "            sp = SignatureSP(packet)\n            if sp.__class__.__name__ == 'Opaque':\n                break\n            self['h_' + sp.__class__.__name__] = sp\n", 'C08.d')
+M('C08', 'compressed-stop-at-opaque', PK, '        while len(cdata) > 0:\n            self.packets.append(Packet(cdata))',
+  '        while len(cdata) > 0:\n            pkt = Packet(cdata)\n            if pkt.header.tag == 0:\n                return\n            self.packets.append(pkt)', 'C08.d')
+M('C08', 'reason-width-len-packet', SS, '        self.string = packet[:(self.header.length - 2)]\n        del packet[:(self.header.length - 2)]',
+  '        self.string = packet[:len(packet)]\n        del packet[:len(packet)]', 'C08.d')
+M('C08', 'literal-remainder-llen', PK, '        self._contents = packet[:self.header.length - (6 + fnl)]\n        del packet[:self.header.length - (6 + fnl)]',
+  '        self._contents = packet[:self.header.llen - (6 + fnl)]\n        del packet[:self.header.llen - (6 + fnl)]', 'C08.d')
+M('C08', 'seipd-remainder-len-packet', PK, '        self.ct = packet[:self.header.length - 1]\n        del packet[:self.header.length - 1]\n\n    def encrypt(self, key, alg, data):',
+  '        self.ct = packet[:len(packet) - 1]\n        del packet[:len(packet) - 1]\n\n    def encrypt(self, key, alg, data):', 'C08.d')
+M('C08', 'sig-pubalg-read-twice', PK, '        self.pubalg = packet[0]\n        del packet[0]\n\n        self.halg = packet[0]\n        del packet[0]\n\n        self.subpackets.parse(packet)\n',
+  '        self.pubalg = packet[0]\n        del packet[0]\n\n        self.pubalg = packet[0]\n        del packet[0]\n\n        self.subpackets.parse(packet)\n', 'C08.c')
+M('C08', 'sig-halg-peeked-not-consumed', PK, '        self.pubalg = packet[0]\n        del packet[0]\n\n        self.halg = packet[0]\n        del packet[0]\n\n        self.subpackets.parse(packet)\n',
+  '        self.pubalg = packet[0]\n        del packet[0]\n\n        self.halg = packet[0]\n\n        self.subpackets.parse(packet)\n', 'C08.a')
+M('C08', 'literal-mtime-read-twice', PK, '        self.mtime = packet[:4]\n        del packet[:4]\n',
+  '        self.mtime = packet[:4]\n        del packet[:4]\n        self.mtime = packet[:4]\n        del packet[:4]\n', 'C08.c')
+T('C08', 'twin-ua-loop-consumed-local', PK, '        plen = len(packet)\n        while self.header.length > (plen - len(packet)):\n            self.subpackets.parse(packet)',
+  '        start = len(packet)\n        total = self.header.length\n        while start - len(packet) < total:\n            self.subpackets.parse(packet)')
+T('C08', 'twin-hashed-loop-stop-local', FL, "        plen = len(packet)\n        while plen - len(packet) < hl:\n            sp = SignatureSP(packet)\n            self['h_' + sp.__class__.__name__] = sp\n",
+  "        stop = len(packet) - hl\n        while len(packet) > stop:\n            sp = SignatureSP(packet)\n            self['h_' + sp.__class__.__name__] = sp\n")
+T('C08', 'twin-hashed-loop-while-true', FL, "        plen = len(packet)\n        while plen - len(packet) < hl:\n            sp = SignatureSP(packet)\n            self['h_' + sp.__class__.__name__] = sp\n",
+  "        plen = len(packet)\n        while True:\n            if plen - len(packet) >= hl:\n                break\n            sp = SignatureSP(packet)\n            self['h_' + sp.__class__.__name__] = sp\n")
+T('C08', 'twin-compressed-loop-truthy', PK, '        while len(cdata) > 0:\n            self.packets.append(Packet(cdata))',
+  '        while cdata:\n            pkt = Packet(cdata)\n            self.packets.append(pkt)')
+T('C08', 'twin-compressed-writer-join', PK, '        _pb = bytearray()\n        for pkt in self.packets:\n            _pb += pkt.__bytearray__()\n        _bytes += self.calg.compress(bytes(_pb))',
+  "        _pb = b''.join(bytes(pkt.__bytearray__()) for pkt in self.packets)\n        _bytes += self.calg.compress(_pb)")
 # --- end C08 hardening
 M('C09', 'old-tag-shift', PT, "        tag |= (self.tag) if self._lenfmt else ((self.tag << 2) | {1: 0, 2: 1, 4: 2, 0: 3}[self.llen])", "        tag |= (self.tag) if self._lenfmt else ((self.tag << 1) | {1: 0, 2: 1, 4: 2, 0: 3}[self.llen])", 'C09.8')
 M('C09', 'tag-mask-1f', PT, "        _tag = (val & 0x3F) if self._lenfmt else ((val & 0x3C) >> 2)", "        _tag = (val & 0x1F) if self._lenfmt else ((val & 0x3C) >> 2)", 'C09.8')
